@@ -4,6 +4,7 @@
    Model: Model/XTree.v, Model/XmlHelpers.v.  Spec: Spec/XmlHelpersSpec.v. *)
 From NC Require Import Model.Base Model.XTree Model.XmlHelpers Spec.XmlHelpersSpec Proofs.XmlHelpersProofs Proofs.XmlReplaceProofs Proofs.XmlCtorProofs.
 From NC Require Import Model.XmlHistory Proofs.XmlHistoryProofs.
+From NC Require Import Model.XmlSession Spec.XmlSessionSpec Proofs.XmlSessionProofs.
 
 (* to_xml: whichever branch runs - the serialiser declared the document itself, or it did not and
    the declaration is prepended - the result is ONE declaration followed by the serialised element,
@@ -184,6 +185,45 @@ Theorem C17_hist_trace : forall ser ops t t' os,
 Proof. exact c17_trace_run. Qed.
 Print Assumptions C17_hist_trace.
 
+(* ---------------- several constructor programs in one process (Model/XmlSession.v, Spec/XmlSessionSpec.v) ---------------- *)
+(* whatever is constructed and however the attributes are passed (omitted, a dictionary the caller keeps and
+   passes again, a literal, keyword arguments): the constructors' default objects are what they were and the
+   caller's dictionaries are what the caller's own assignments made them *)
+Theorem C17_session_store : forall ops st st',
+  srun st ops = Some st' ->
+  s_dflt st' = s_dflt st /\ s_dicts st' = caller_dicts (s_dicts st) ops.
+Proof. exact c17_session_store. Qed.
+Print Assumptions C17_session_store.
+
+(* a call leaves every tree it was not given exactly as it was *)
+Theorem C17_session_step_frame : forall st op st' j,
+  sstep st op = Some st' -> sop_tree op <> Some j -> (j < length (s_trees st))%nat ->
+  nth_error (s_trees st') j = nth_error (s_trees st) j.
+Proof. exact c17_session_step_frame. Qed.
+Print Assumptions C17_session_step_frame.
+
+(* in a process whose default objects are empty, every tree is the tree ITS OWN program specifies - the calls
+   that create / extend it, each with the attributes written at the call site ([own] looks at no implementation
+   state): what was built before, in between or afterwards for other trees does not show *)
+Theorem C17_session_independent : forall ops st st' j,
+  pristine st -> srun st ops = Some st' ->
+  nth_error (s_trees st') j =
+  fold_left lstep (own j (length (s_trees st)) (s_dicts st) ops) (nth_error (s_trees st) j).
+Proof. exact c17_session_independent. Qed.
+Print Assumptions C17_session_independent.
+
+Theorem C17_session_alone : forall ops dflt dicts st' j,
+  pristine (mkS dflt dicts []) -> srun (mkS dflt dicts []) ops = Some st' ->
+  nth_error (s_trees st') j = fold_left lstep (own j 0 dicts ops) None.
+Proof. exact c17_session_alone. Qed.
+Print Assumptions C17_session_alone.
+
+(* the state-after-every-call trace the runner reports is the run *)
+Theorem C17_session_trace : forall ops st st',
+  srun st ops = Some st' -> last (strace st ops) st = st' /\ length (strace st ops) = length ops.
+Proof. exact c17_session_trace. Qed.
+Print Assumptions C17_session_trace.
+
 (* ---------------- non-vacuity ---------------- *)
 From Coq Require Import String.
 From NC Require Import Model.Lit.
@@ -264,3 +304,45 @@ Example C17_ex_history :
   diverge [1%nat] [0%nat] = true /\ lx_get_at [0%nat] t' = lx_get_at [0%nat] ex_hist_tree /\
   lx_get_at [2%nat] ex_hist_tree = None.
 Proof. vm_compute. repeat split; reflexivity. Qed.
+
+(* one process: rpc/get-config with a keyword attribute and item with a caller's dictionary (which the caller then
+   extends), then a second, unrelated rpc whose children are written WITHOUT attributes and one that passes the
+   caller's dictionary again.  Tree 1 carries what its own calls say; tree 0 did not follow the caller's later
+   assignment; the defaults are still empty. *)
+Definition ex_k (s : string) : name := (None, lit s).
+Definition ex_session : list sop :=
+  [SNew (lit "rpc") ADefault [];
+   SSub 0 [] (lit "get-config") ADefault [(ex_k "operation", lit "merge")];
+   SSubNs 0 [] (lit "item") (Some (lit "urn:two")) (ACaller 0) [(ex_k "key", lit "k1")];
+   SDictSet 0 (ex_k "b") (lit "2");
+   SNew (lit "rpc") ADefault [];
+   SSub 1 [] (lit "close-session") ADefault [];
+   SSubNs 1 [] (lit "plain") (Some (lit "urn:two")) ADefault [];
+   SSub 1 [] (lit "x") (ACaller 0) [(ex_k "a", lit "9")]].
+Definition ex_st0 : sstate := mkS [[]; []; []; []; []] [[(ex_k "a", lit "1")]] [].
+Example C17_ex_session :
+  pristine ex_st0 /\
+  exists st', srun ex_st0 ex_session = Some st' /\
+    s_dflt st' = [[]; []; []; []; []] /\ s_dicts st' = [[(ex_k "a", lit "1"); (ex_k "b", lit "2")]] /\
+    own 1 0 (s_dicts ex_st0) ex_session =
+      [LNew (lit "rpc") []; LSub [] (lit "close-session") []; LSubNs [] (lit "plain") (Some (lit "urn:two")) [];
+       LSub [] (lit "x") [(ex_k "a", lit "9"); (ex_k "b", lit "2")]] /\
+    option_map mview (nth_error (s_trees st') 1) =
+      Some (Elem (Some BASE_NS, lit "rpc") []
+             [Elem (Some BASE_NS, lit "close-session") [] []; Elem (Some (lit "urn:two"), lit "plain") [] [];
+              Elem (Some BASE_NS, lit "x") [(ex_k "a", lit "9"); (ex_k "b", lit "2")] []]) /\
+    option_map mview (nth_error (s_trees st') 0) =
+      Some (Elem (Some BASE_NS, lit "rpc") []
+             [Elem (Some BASE_NS, lit "get-config") [(ex_k "operation", lit "merge")] [];
+              Elem (Some (lit "urn:two"), lit "item") [(ex_k "key", lit "k1"); (ex_k "a", lit "1")] []]).
+Proof.
+  split; [intros []; reflexivity|]. eexists. split; [vm_compute; reflexivity|]. vm_compute. repeat split; reflexivity.
+Qed.
+
+(* the hypothesis [pristine] is needed, and the model evaluates a default the way Python does: had an earlier call
+   left operation="merge" in sub_ele's default object, a later bare sub_ele would carry it *)
+Example C17_session_polluted_refuted :
+  let st := mkS [[]; []; []; [(ex_k "operation", lit "merge")]; []] [] [new_ele (lit "rpc") []] in
+  exists st', srun st [SSub 0 [] (lit "close-session") ADefault []] = Some st' /\
+    nth_error (s_trees st') 0 <> fold_left lstep (own 0 1 [] [SSub 0 [] (lit "close-session") ADefault []]) (nth_error (s_trees st) 0).
+Proof. eexists. split; [vm_compute; reflexivity|]. vm_compute. discriminate. Qed.
